@@ -96,99 +96,99 @@ func bindings() []binding {
 			return ""
 		}},
 		{vmcommon.BuiltInFunctionESDTTransfer, on(uni.ESDTTransfer(A0, B0, uni.F, 1)), func(pre, post *world.World, _ *world.Leg) string {
-			return deltaIs(pre, post, map[string]int64{k(A0, "F"): -1, k(B0, "F"): 1})
+			return deltaIs(pre, post, map[string]int64{k(A0, tF): -1, k(B0, tF): 1})
 		}},
 		{vmcommon.BuiltInFunctionESDTBurn, on(uni.Call(B0, uni.ESDT, vmcommon.BuiltInFunctionESDTBurn, uni.F, uni.Big(1))), func(pre, post *world.World, _ *world.Leg) string {
-			return deltaIs(pre, post, map[string]int64{k(B0, "F"): -1}) // b0 holds no burn role: only ESDTBurn may do this
+			return deltaIs(pre, post, map[string]int64{k(B0, tF): -1}) // b0 holds no burn role: only ESDTBurn may do this
 		}},
 		{vmcommon.BuiltInFunctionESDTFreeze, on(uni.SysCall(B0, vmcommon.BuiltInFunctionESDTFreeze, uni.F)), func(pre, post *world.World, _ *world.Leg) string {
-			if !spec.Frozen(post.Get(B0), "F") || deltaIs(pre, post, nil) != "" {
+			if !spec.Frozen(post.Get(B0), tF) || deltaIs(pre, post, nil) != "" {
 				return "account not frozen with balance intact"
 			}
 			return ""
 		}},
 		{vmcommon.BuiltInFunctionESDTUnFreeze, afterThen(uni.SysCall(B0, vmcommon.BuiltInFunctionESDTFreeze, uni.F), uni.SysCall(B0, vmcommon.BuiltInFunctionESDTUnFreeze, uni.F)), func(pre, post *world.World, _ *world.Leg) string {
-			if !spec.Frozen(pre.Get(B0), "F") || spec.Frozen(post.Get(B0), "F") || deltaIs(pre, post, nil) != "" {
+			if !spec.Frozen(pre.Get(B0), tF) || spec.Frozen(post.Get(B0), tF) || deltaIs(pre, post, nil) != "" {
 				return "account not unfrozen with balance intact"
 			}
 			return ""
 		}},
 		{vmcommon.BuiltInFunctionESDTWipe, afterThen(uni.SysCall(B0, vmcommon.BuiltInFunctionESDTFreeze, uni.F), uni.SysCall(B0, vmcommon.BuiltInFunctionESDTWipe, uni.F)), func(pre, post *world.World, _ *world.Leg) string {
-			if _, still := post.Get(B0).Storage[spec.TokPrefix+"F"]; still {
+			if _, still := post.Get(B0).Storage[spec.TokPrefix+tF]; still {
 				return "frozen holding not wiped"
 			}
-			return deltaIs(pre, post, map[string]int64{k(B0, "F"): -1})
+			return deltaIs(pre, post, map[string]int64{k(B0, tF): -1})
 		}},
 		{vmcommon.BuiltInFunctionESDTPause, on(uni.PauseCall(0, vmcommon.BuiltInFunctionESDTPause, uni.F)), func(pre, post *world.World, _ *world.Leg) string {
-			if spec.Paused(pre, 0, "F") || !spec.Paused(post, 0, "F") {
+			if spec.Paused(pre, 0, tF) || !spec.Paused(post, 0, tF) {
 				return "token not paused"
 			}
 			return ""
 		}},
 		{vmcommon.BuiltInFunctionESDTUnPause, afterThen(uni.PauseCall(0, vmcommon.BuiltInFunctionESDTPause, uni.F), uni.PauseCall(0, vmcommon.BuiltInFunctionESDTUnPause, uni.F)), func(pre, post *world.World, _ *world.Leg) string {
-			if !spec.Paused(pre, 0, "F") || spec.Paused(post, 0, "F") {
+			if !spec.Paused(pre, 0, tF) || spec.Paused(post, 0, tF) {
 				return "token not unpaused"
 			}
 			return ""
 		}},
 		{vmcommon.BuiltInFunctionSetESDTRole, on(uni.SetRole(B0, uni.F, vmcommon.ESDTRoleLocalMint)), func(pre, post *world.World, _ *world.Leg) string {
-			if spec.HasRole(pre.Get(B0), "F", vmcommon.ESDTRoleLocalMint) || !spec.HasRole(post.Get(B0), "F", vmcommon.ESDTRoleLocalMint) {
+			if spec.HasRole(pre.Get(B0), tF, vmcommon.ESDTRoleLocalMint) || !spec.HasRole(post.Get(B0), tF, vmcommon.ESDTRoleLocalMint) {
 				return "role not added"
 			}
 			return ""
 		}},
 		{vmcommon.BuiltInFunctionUnSetESDTRole, on(uni.UnSetRole(A0, uni.F, vmcommon.ESDTRoleLocalMint)), func(pre, post *world.World, _ *world.Leg) string {
-			if !spec.HasRole(pre.Get(A0), "F", vmcommon.ESDTRoleLocalMint) || spec.HasRole(post.Get(A0), "F", vmcommon.ESDTRoleLocalMint) || !spec.HasRole(post.Get(A0), "F", vmcommon.ESDTRoleLocalBurn) {
+			if !spec.HasRole(pre.Get(A0), tF, vmcommon.ESDTRoleLocalMint) || spec.HasRole(post.Get(A0), tF, vmcommon.ESDTRoleLocalMint) || !spec.HasRole(post.Get(A0), tF, vmcommon.ESDTRoleLocalBurn) {
 				return "exactly the given role not removed"
 			}
 			return ""
 		}},
 		{vmcommon.BuiltInFunctionESDTLocalMint, on(uni.Call(A0, A0, vmcommon.BuiltInFunctionESDTLocalMint, uni.F, uni.Big(2))), func(pre, post *world.World, _ *world.Leg) string {
-			return deltaIs(pre, post, map[string]int64{k(A0, "F"): 2})
+			return deltaIs(pre, post, map[string]int64{k(A0, tF): 2})
 		}},
 		{vmcommon.BuiltInFunctionESDTLocalBurn, on(uni.Call(A0, A0, vmcommon.BuiltInFunctionESDTLocalBurn, uni.F, uni.Big(2))), func(pre, post *world.World, leg *world.Leg) string {
 			if len(leg.Outs) != 0 {
 				return "local burn emitted a transfer"
 			}
-			return deltaIs(pre, post, map[string]int64{k(A0, "F"): -2})
+			return deltaIs(pre, post, map[string]int64{k(A0, tF): -2})
 		}},
 		{vmcommon.BuiltInFunctionESDTNFTTransfer, on(uni.NFTTransfer(A0, B0, uni.S, 2, 1)), func(pre, post *world.World, _ *world.Leg) string {
-			return deltaIs(pre, post, map[string]int64{k(A0, "S\x02"): -1, k(B0, "S\x02"): 1})
+			return deltaIs(pre, post, map[string]int64{k(A0, tS2): -1, k(B0, tS2): 1})
 		}},
 		{vmcommon.BuiltInFunctionESDTNFTCreate, on(uni.Create(A0, uni.S, 1)), func(pre, post *world.World, leg *world.Leg) string {
-			if spec.Counter(post.Get(A0), "S") != spec.Counter(pre.Get(A0), "S")+1 || len(leg.Out.ReturnData) != 1 {
+			if spec.Counter(post.Get(A0), tS) != spec.Counter(pre.Get(A0), tS)+1 || len(leg.Out.ReturnData) != 1 {
 				return "counter not advanced / no nonce returned"
 			}
 			return deltaIs(pre, post, map[string]int64{k(A0, "S\x03"): 1})
 		}},
 		{vmcommon.BuiltInFunctionESDTNFTAddQuantity, on(uni.Call(A0, A0, vmcommon.BuiltInFunctionESDTNFTAddQuantity, uni.S, uni.Big(1), uni.Big(2))), func(pre, post *world.World, _ *world.Leg) string {
-			return deltaIs(pre, post, map[string]int64{k(A0, "S\x01"): 2})
+			return deltaIs(pre, post, map[string]int64{k(A0, tS1): 2})
 		}},
 		{vmcommon.BuiltInFunctionESDTNFTCreateRoleTransfer, on(uni.SysCall(A0, vmcommon.BuiltInFunctionESDTNFTCreateRoleTransfer, uni.S, B0)), func(pre, post *world.World, _ *world.Leg) string {
-			if spec.HasRole(post.Get(A0), "S", vmcommon.ESDTRoleNFTCreate) || !spec.HasRole(post.Get(B0), "S", vmcommon.ESDTRoleNFTCreate) || spec.Counter(post.Get(B0), "S") != spec.Counter(pre.Get(A0), "S") || spec.Counter(post.Get(A0), "S") != 0 {
+			if spec.HasRole(post.Get(A0), tS, vmcommon.ESDTRoleNFTCreate) || !spec.HasRole(post.Get(B0), tS, vmcommon.ESDTRoleNFTCreate) || spec.Counter(post.Get(B0), tS) != spec.Counter(pre.Get(A0), tS) || spec.Counter(post.Get(A0), tS) != 0 {
 				return "create role and counter not handed over"
 			}
 			return ""
 		}},
 		{vmcommon.BuiltInFunctionESDTNFTBurn, on(uni.Call(A0, A0, vmcommon.BuiltInFunctionESDTNFTBurn, uni.S, uni.Big(1), uni.Big(2))), func(pre, post *world.World, _ *world.Leg) string {
-			return deltaIs(pre, post, map[string]int64{k(A0, "S\x01"): -2})
+			return deltaIs(pre, post, map[string]int64{k(A0, tS1): -2})
 		}},
 		{vmcommon.BuiltInFunctionESDTNFTAddURI, on(uni.Call(A0, A0, vmcommon.BuiltInFunctionESDTNFTAddURI, uni.S, uni.Big(1), []byte("new-uri"))), func(pre, post *world.World, _ *world.Leg) string {
-			a, b := spec.Entry(pre.Get(A0), "S\x01"), spec.Entry(post.Get(A0), "S\x01")
+			a, b := spec.Entry(pre.Get(A0), tS1), spec.Entry(post.Get(A0), tS1)
 			if a == nil || b == nil || len(b.TokenMetaData.URIs) != len(a.TokenMetaData.URIs)+1 || string(b.TokenMetaData.URIs[len(b.TokenMetaData.URIs)-1]) != "new-uri" || !bytes.Equal(a.TokenMetaData.Attributes, b.TokenMetaData.Attributes) {
 				return "URI not appended"
 			}
 			return ""
 		}},
 		{vmcommon.BuiltInFunctionESDTNFTUpdateAttributes, on(uni.Call(A0, A0, vmcommon.BuiltInFunctionESDTNFTUpdateAttributes, uni.S, uni.Big(1), []byte("new-attr"))), func(pre, post *world.World, _ *world.Leg) string {
-			a, b := spec.Entry(pre.Get(A0), "S\x01"), spec.Entry(post.Get(A0), "S\x01")
+			a, b := spec.Entry(pre.Get(A0), tS1), spec.Entry(post.Get(A0), tS1)
 			if a == nil || b == nil || string(b.TokenMetaData.Attributes) != "new-attr" || len(b.TokenMetaData.URIs) != len(a.TokenMetaData.URIs) {
 				return "attributes not replaced"
 			}
 			return ""
 		}},
 		{vmcommon.BuiltInFunctionMultiESDTNFTTransfer, on(uni.Multi(A0, B0, []uni.Ent{{Tok: uni.S, Nonce: 1, Q: 1}, {Tok: uni.F, Nonce: 0, Q: 2}})), func(pre, post *world.World, _ *world.Leg) string {
-			return deltaIs(pre, post, map[string]int64{k(A0, "S\x01"): -1, k(B0, "S\x01"): 1, k(A0, "F"): -2, k(B0, "F"): 2})
+			return deltaIs(pre, post, map[string]int64{k(A0, tS1): -1, k(B0, tS1): 1, k(A0, tF): -2, k(B0, tF): 2})
 		}},
 	}
 }
